@@ -13,7 +13,7 @@ def b(x):
 
 
 def gen_cfg(rng):
-    return {"pre": rng.choice([None, None, "touch", "touch", "panic"]), "expected": rng.choice(["success", "success", "failure"])}
+    return {"pre": rng.choice([None, None, None, "touch", "touch", "touch", "panic", "panic", "nospawn"]), "expected": rng.choice(["success", "success", "failure"])}
 
 
 def gen_body(rng, depth):
@@ -60,7 +60,7 @@ def cfg_json(cfg):
 
 
 def cq_cfg(cfg):
-    pre = {None: "None", "touch": "(Some PreOk)", "panic": "(Some PrePanic)"}[cfg["pre"]]
+    pre = {None: "None", "touch": "(Some PreOk)", "panic": "(Some PrePanic)", "nospawn": "(Some PreNoSpawn)"}[cfg["pre"]]
     return f"(mkB {pre} {cq_bool(cfg['expected'] == 'success')})"
 
 
@@ -130,7 +130,12 @@ class C16:
               "body": {"steps": [{"op": "start", "body": ["panic"]}], "fin": {"fin": "end"}}, "fail": [2]}
         late = {"cfg": {"pre": None, "expected": "success"},
                 "body": {"steps": [{"op": "start", "body": []}], "fin": {"fin": "end"}}, "fail": [1]}
-        return [f6, late]
+        # a rebuild whose pack cannot be started: the image and volumes of the first build still go
+        nospawn = {"cfg": {"pre": None, "expected": "success"},
+                   "body": {"steps": [{"op": "shell"}],
+                            "fin": {"fin": "rebuild", "cfg": {"pre": "nospawn", "expected": "success"},
+                                    "inner": {"steps": [], "fin": {"fin": "end"}}, "after_panic": False}}, "fail": []}
+        return [f6, late, nospawn]
 
     def gen(self, rng, tier):
         cases = []
